@@ -186,6 +186,9 @@ def stmts(depth=2):
         st.builds(lambda n, b, u: 'async def %s(a):\n%s' % (n, _indent(b + 'await a\nasync for i in a:\n    pass\nasync with a as b:\n    pass\nreturn [i async for i in a]\n', u)), NAMES, sub, unit),
         st.builds(lambda n, b, u: 'async def %s(a, /, b=1):\n%s' % (n, _indent('async with a as c:\n    if c:\n        return 1\n    raise E\nasync for i in a:\n    return i\nelse:\n    raise F\n' + b + 'return 3\n', u)), NAMES, sub, unit),
         st.builds(lambda n, b, u: 'def %s(a, b=1, /):\n%s' % (n, _indent(b + 'return (lambda x, /, y=2: x)(a)\n', u)), NAMES, sub, unit),
+        st.builds(lambda n, b, u: 'def %s[T, *Ts, **P](xs: list[T], *a: *Ts) -> T:\n%s' % (n, _indent('"doc"\n' + b + 'return xs[0]\n', u)), NAMES, sub, unit),
+        st.builds(lambda n, b, u: 'class %s[T: int, U = str](Base[T]):\n%s' % (n, _indent('async def get[V](self, k: V) -> V | None:\n    yield k\n' + b, u)), NAMES, sub, unit),
+        st.builds(lambda n, b, u: 'class %s[T]:\n%s' % (n, _indent('def m[K](self, k: K) -> tuple[T, K]:\n    raise E\n' + b, u)), NAMES, sub, unit),
         st.builds(lambda b, u: 'for q in z:\n%s' % _indent('try:\n    pass\nfinally:\n    continue\n' + b, u), sub, unit),
         st.builds(lambda n, b, u: 'class %s(Base, metaclass=M):\n%s' % (n, _indent('"doc"\nx: int = 1\n' + b, u)), NAMES, sub, unit),
         st.builds(lambda n, b, u: 'def %s():\n%s' % (n, _indent('global g1, g2\ng1 = 1\ndef inner():\n    nonlocal v\n    v = 2\nv = 1\n' + b, u)), NAMES, sub, unit),
